@@ -30,6 +30,8 @@ def slice_program(program, keep):
                 n[k] = m[v]
             elif k in ("x", "a", "kw", "item", "how", "panel"):
                 n[k] = remap_spec(v, m)
+            elif k == "alias_fx":
+                n[k] = [[m[d], alias] for d, alias in v if d in m]
             else:
                 n[k] = copy.deepcopy(v)
         out.append(n)
